@@ -334,8 +334,8 @@ def run(tier='quick', seed=0, first_failure_only=False, want=None, budget_s=None
     rng = random.Random(1000 + seed)
     n_ex_full = 2 if tier == 'quick' else 3          # all (observed, with_values, outputs) combinations
     n_ex = 3                                         # all models, sampled combinations
-    plan_random = [(4, 1200, 4)] if tier == 'quick' else [(4, 12000, 6), (5, 8000, 6)]
-    k_ex = 3 if tier == 'quick' else 0
+    plan_random = [(4, 900, 3)] if tier == 'quick' else [(4, 12000, 6), (5, 8000, 6)]
+    k_ex = 2 if tier == 'quick' else 0
     t0 = time.time()
     cases = nontrivial = 0
     failures, seen = [], {}
